@@ -14,10 +14,10 @@ from fiddle._src import config as config_lib
 from fiddle._src import daglish
 from fiddle._src.experimental import serialization
 
-from harness import common, l2, c02
+from harness import common, l2, c02, c08
 from harness.common import Failure, Result, Stream, g_list, g_pair, g_N, g_nat, g_codes
 
-COQ_TARGETS = ["theories/C09Check.vo"]
+COQ_TARGETS = ["theories/C09Check.vo", "theories/C09Hyps.vo"]
 TRUSTED_BASE = ["json.dumps / json.loads at the text level", "importlib (symbol resolution)"]
 ASSUMPTIONS = ["at the graph level (de)serialization is modelled as a memoized copy through a table of objects; "
                "names, the debugging 'paths' field and the encoding of traverser metadata are not modelled"]
@@ -332,9 +332,12 @@ def check_policy_trace(policy, imported, problems, invocation_clause=True):
     problems.append("deserialization invoked a configured callable")
 
 
-def one_value(rng, res, intern, stream, label):
+def one_value(rng, res, intern, stream, label, dstream=None, value=None):
   pool = []
-  value = gen_value(rng, 0, pool)
+  if value is None:
+    value = gen_value(rng, 0, pool)
+  else:
+    pool = [x for x in c02.reachable(value)]
   res.evaluations += 1
   replay = {"label": label, "value": repr(value)[:1500]}
   try:
@@ -388,12 +391,56 @@ def one_value(rng, res, intern, stream, label):
       r_doc = enc.ref(doc_obj)
       h_doc = enc.heap()
       r_out = enc.ref(outcome[1])
+      if dstream is not None:
+        try:
+          document_case(enc, enc.sigenv(), h_in, r_in, value, json.loads(text), res, dstream, replay)
+        except (TypeError, KeyError, ValueError) as e:
+          res.count("doc-skipped:" + type(e).__name__)
       stream.add(f"(mkcase {enc.sigenv()} {h_in} {r_in} {h_doc} {r_doc} {enc.heap()} {r_out})", meta=replay)
     except (TypeError, l2.Cyclic, KeyError, ValueError) as e:
       res.count("corr-skipped:" + type(e).__name__)
   if len(res.samples) < 3:
     res.samples.append({"value": repr(value)[:400], "document_bytes": len(text)})
   return text
+
+
+def document_case(enc, sigenv, h_in, r_in, value, doc, res, dstream, replay):
+  """What the document says about its objects table, entry by entry in table order: the input object
+  an entry describes (found by following the entry's first printed path on the input), its refcount
+  and its paths.  Entries without a "paths" field are traverser metadata (key tuples, tag sets, ...)."""
+  entries = []
+  for name, obj in doc["objects"].items():
+    if not isinstance(obj, dict) or "paths" not in obj:
+      res.count("doc-entry:metadata")
+      continue
+    paths = []
+    target = None
+    for text in obj["paths"]:
+      if not text.startswith("<root>"):
+        res.count("doc-skipped:path-prefix")
+        return
+      parsed = c08.parse_printed_path(value, text[len("<root>"):], want_value=True)
+      if parsed is None:
+        res.count("doc-skipped:unreadable-path")
+        return
+      paths.append(parsed[0])
+      if target is None:
+        target = parsed[1]
+      elif parsed[1] is not target:
+        res.failures.append(Failure(None, f"C09 document: the paths of entry {name} lead to different objects", replay))
+        return
+    if target is None:
+      res.count("doc-skipped:no-path")
+      return
+    if id(target) not in enc.ids:
+      # the encoding writes this object inline (NO_VALUE, ...): it has no node in the model
+      res.count("doc-entry:inline-in-model")
+      continue
+    res.count("doc-entry:object")
+    entries.append(g_pair(g_nat(enc.ids[id(target)]),
+                          g_pair(g_nat(int(doc["refcounts"].get(name, 0))),
+                                 g_list([c08.g_path(enc, p) for p in paths]))))
+  dstream.add(f"(mkdoc {sigenv} {h_in} {r_in} {g_list(entries)})", meta=replay)
 
 
 def graph_encodable(value) -> bool:
@@ -606,15 +653,41 @@ def run(tier: str, seed: int) -> Result:
                   "C09Check.case", "C09Check.check_case")
   bstream = Stream("c09_bytes", "From Fiddle Require Import Serial C09Check.",
                    "C09Check.bytes_case", "C09Check.check_bytes")
-  res.streams += [stream, bstream]
+  dstream = Stream("c09_document", "From Fiddle Require Import PySlice Sig ArgStore PyCall Heap Traverse Copy Doc C09Check.",
+                   "C09Check.doc_case", "C09Check.check_doc")
+  hyp_stream = Stream("c09_doc_theorem_hypotheses",
+                      "From Fiddle Require Import PySlice Sig ArgStore PyCall Heap Traverse Copy Doc C09Check C09Hyps.",
+                      "C09Check.doc_case", "C09Hyps.hyps_doc", informational=True)
+  res.streams += [stream, bstream, dstream, hyp_stream]
   texts = []
   n = 500 if tier == "quick" else 15000
   for i in range(n):
-    t = one_value(rng, res, intern, stream, f"value#{i}")
+    t = one_value(rng, res, intern, stream, f"value#{i}", dstream)
     if t:
       texts.append(t)
+  # configuration DAGs with sharing, positional arguments and tags (the generator of the graph properties)
+  for i in range(200 if tier == "quick" else 4000):
+    root, _ = l2.gen_dag(rng, rng.randint(2, 12))
+    res.count("dag-value")
+    t = one_value(rng, res, intern, stream, f"dag#{i}", dstream, value=root)
+    if t:
+      texts.append(t)
+  # values that are EQUAL in Python but differ in type or sign (1 == 1.0 == True, 0.0 == -0.0), side by side in
+  # one document: as tuples, as dict keys, as positional argument indices next to a tuple of bools
+  pairs = [lambda: [(1, 2), (1.0, 2.0)], lambda: [(1.0, 2.0), (1, 2), (True, 2)], lambda: [(0.0,), (-0.0,)],
+           lambda: [{1: "one"}, {True: "yes"}, {1.0: "f"}], lambda: [(False, True), fdl.Config(l2.fc, 16, 32)],
+           lambda: [fdl.Config(l2.fc, 16, 32), (False, True), (0, 1)],
+           lambda: {"a": (1, (2, 3)), "b": (True, (2.0, 3))}, lambda: [frozenset({1}), frozenset({True})],
+           lambda: fdl.Config(l2.fd, x=(1, 0), y=(True, False), z=[(1, 0)])]
+  for i in range(len(pairs) * (2 if tier == "quick" else 20)):
+    v = pairs[i % len(pairs)]()
+    if rng.random() < 0.5 and isinstance(v, list):
+      v = v[::-1]
+    res.count("equal-across-types-value")
+    one_value(rng, res, intern, stream, f"equal-across-types#{i}", dstream, value=v)
   for i in range(200 if tier == "quick" else 5000):
     if texts:
       malformed_case(rng, res, rng.choice(texts), f"malformed#{i}")
   bytes_codec_stream(rng, res, bstream, tier)
+  hyp_stream.cases, hyp_stream.meta = dstream.cases, dstream.meta
   return res
